@@ -130,7 +130,14 @@ func (vs *ValidatorStore) ExecuteAllegationTracker(ctx *ValidatorContext, active
 	addrToDelete := make([]string, 0)
 	//processedValidators := make(map[string]bool)
 	ctx.EvidenceStore.CleanTracker()
+	// the requests are decided in a fixed order: a verdict writes new records,
+	// and the order in which new keys enter the tree is part of its hash
+	requestIDs := make([]string, 0, len(at.Requests))
 	for requestID := range at.Requests {
+		requestIDs = append(requestIDs, requestID)
+	}
+	sort.Strings(requestIDs)
+	for _, requestID := range requestIDs {
 		ar, err := ctx.EvidenceStore.GetAllegationRequest(requestID)
 		decisionMade := false
 		if err != nil {
